@@ -219,8 +219,15 @@ type flowReq struct {
 }
 
 func (s *sess) authFor(c *vclient.Client) (form url.Values, hdr func(*http.Request)) {
-	if c.Auth == oidc.AuthMethodNone {
+	switch c.Auth {
+	case oidc.AuthMethodNone:
 		return url.Values{"client_id": {c.ID}}, nil
+	case oidc.AuthMethodPost:
+		return url.Values{"client_id": {c.ID}, "client_secret": {c.Secret}}, nil
+	case oidc.AuthMethodPrivateKeyJWT:
+		now := time.Now()
+		a := opdrv.Assertion(opdrv.ClientKey(c.ID), c.ID, c.ID, []string{s.issuer}, now.Add(-5*time.Second), now.Add(10*time.Minute), nil)
+		return url.Values{"client_assertion_type": {oidc.ClientAssertionTypeJWTAssertion}, "client_assertion": {a}}, nil
 	}
 	return url.Values{}, func(r *http.Request) { opdrv.Basic(r, c.ID, c.Secret) }
 }
@@ -555,16 +562,21 @@ const (
 
 // requestObject signs (RS256, registered key of client omni) a conforming request object for this provider.
 func (s *sess) requestObject(extra map[string]any) string {
+	return s.requestObjectOf(s.w.omni, extra)
+}
+
+// requestObjectOf: the same for any client with a registered RS256 key (opdrv.ClientKey(id)).
+func (s *sess) requestObjectOf(c *vclient.Client, extra map[string]any) string {
 	now := time.Now()
 	obj := map[string]any{
-		"iss": "omni", "aud": []string{s.issuer}, "client_id": "omni", "response_type": "code", "redirect_uri": omniRedirect,
+		"iss": c.ID, "aud": []string{s.issuer}, "client_id": c.ID, "response_type": "code", "redirect_uri": c.Redirects[0],
 		"scope": "openid email", "state": objState, "nonce": objNonce, "iat": now.Add(-5 * time.Second).Unix(), "exp": now.Add(10 * time.Minute).Unix(),
 	}
 	for k, v := range extra {
 		obj[k] = v
 	}
 	b, _ := json.Marshal(obj)
-	return keys.Sign(omniKey(), b, "")
+	return keys.Sign(opdrv.ClientKey(c.ID), b, "")
 }
 
 func (s *sess) s256Advertised() bool {
@@ -605,6 +617,13 @@ func (s *sess) probePKCEWithRequestObject() {
 		{"both-different", c2, "S256", c1, "S256", v2},                    // the object supersedes: the query's own verifier is a wrong one
 		{"both-query-says-plain", c1, "plain", c1, "S256", opdrv.OtherVerifier(v1)}, // the object's method supersedes: the challenge string is not a verifier
 	}
+	// the client of the combined flows authenticates with client_secret_basic or, where the document advertises it, with
+	// private_key_jwt (the key that signs its request objects is the one that signs its client assertions)
+	client := s.w.omni
+	if s.authMethodAdvertised(string(oidc.AuthMethodPrivateKeyJWT)) && r.IntN(2) == 0 {
+		client = s.w.pkjwt
+	}
+	s.run.Count("pkce+reqobj:"+s.rn, "client-auth:"+string(client.Auth))
 	for _, p := range placements {
 		var extra map[string]any
 		if p.oCh != "" {
@@ -612,8 +631,8 @@ func (s *sess) probePKCEWithRequestObject() {
 		}
 		allGood := true
 		for _, vk := range []string{"right", "wrong", "absent", "challenge-string"} {
-			f := flowReq{client: s.w.omni, scope: "openid profile", state: outerState, nonce: outerNonce, challenge: p.qCh, challengeMethod: p.qMethod,
-				extra: url.Values{"request": {s.requestObject(extra)}}}
+			f := flowReq{client: client, scope: "openid profile", state: outerState, nonce: outerNonce, challenge: p.qCh, challengeMethod: p.qMethod,
+				extra: url.Values{"request": {s.requestObjectOf(client, extra)}}}
 			switch vk {
 			case "right":
 				f.verifier = v1
@@ -635,22 +654,23 @@ func (s *sess) probePKCEWithRequestObject() {
 					errCode = res.last.OAuthError()
 				}
 				s.run.Count("pkce+reqobj:"+s.rn, bucket+"FAILED-at-"+res.stage)
-				s.violation("pkce-reqobj", "right-verifier-refused:"+p.name, fmt.Sprintf("S256 and request objects are advertised; with the PKCE parameters placed %s (query: challenge of %s method %q; object: challenge of %s method %q) the flow with the right verifier stops at %s (%s)",
-					p.name, map[bool]string{true: "the verifier", false: "another verifier"}[p.qCh == c1], p.qMethod, "the verifier", p.oMethod, res.stage, errCode))
+				s.violation("pkce-reqobj", "right-verifier-refused:"+p.name, fmt.Sprintf("S256 and request objects are advertised; with the PKCE parameters placed %s (query: challenge of %s method %q; object: challenge of %s method %q) the flow of client %s (%s) with the right verifier stops at %s (%s)",
+					p.name, map[bool]string{true: "the verifier", false: "another verifier"}[p.qCh == c1], p.qMethod, "the verifier", p.oMethod, client.ID, client.Auth, res.stage, errCode))
 			case res.code == "":
 				allGood = false
 				s.run.Count("pkce+reqobj:"+s.rn, bucket+"no-code")
 			case res.tokens != nil:
 				allGood = false
 				s.run.Count("pkce+reqobj:"+s.rn, bucket+"TOKENS")
-				s.violation("pkce-reqobj", "not-enforced:"+p.name+":"+vk+"-verifier", fmt.Sprintf("S256 and request objects are advertised; with the PKCE parameters placed %s (query method %q, object method %q) the code was redeemed with %s",
-					p.name, p.qMethod, p.oMethod, map[string]string{"wrong": "a wrong code_verifier", "absent": "no code_verifier", "challenge-string": "the code_challenge string itself as code_verifier"}[vk]))
+				s.violation("pkce-reqobj", "not-enforced:"+p.name+":"+vk+"-verifier", fmt.Sprintf("S256 and request objects are advertised; with the PKCE parameters placed %s (query method %q, object method %q) the code of client %s (%s) was redeemed with %s",
+					p.name, p.qMethod, p.oMethod, client.ID, client.Auth, map[string]string{"wrong": "a wrong code_verifier", "absent": "no code_verifier", "challenge-string": "the code_challenge string itself as code_verifier"}[vk]))
 			default:
 				s.run.Count("pkce+reqobj:"+s.rn, bucket+"refused:"+res.last.OAuthError())
 			}
 		}
 		if allGood {
 			s.run.Observed("pkce+reqobj-honoured:" + s.rn + ":" + p.name)
+			s.run.Observed("pkce+reqobj-honoured-for:" + s.rn + ":" + string(client.Auth))
 		}
 	}
 }
@@ -917,6 +937,7 @@ func providerCase(run *ev.Run, idx int) {
 	s.probeRolesFresh(first)
 	revocable := s.probeGrants(first)
 	s.probePKCE(idx)
+	s.probePKCEByAuthMethod()
 	s.probeRequestObject()
 	s.probePKCEWithRequestObject()
 	s.probeRolesLate(first, revocable)
